@@ -323,6 +323,9 @@ static void op_cs (op_t *o) {
 	int mi = o->a[0], mode = o->a[1], v = o->a[2], delta = o->a[3], rel = o->a[4], pts = o->a[5];
 	int writer = (mode == 0 || mode == 2);
 	if (!do_acquire (mi, mode)) return;
+	/* the public observers of the lock state must agree with the mode just acquired */
+	if (writer) nsync_mu_assert_held (W.mu[mi]); else nsync_mu_rassert_held (W.mu[mi]);
+	if (nsync_mu_is_reader (W.mu[mi]) != !writer) VIOL ("C01", "is-reader", "nsync_mu_is_reader disagrees with the mode in which mu%d was just acquired (%s)", mi, writer ? "write" : "read");
 	if (writer) {
 		if (delta != 0) var_add (v, delta, pts); else (void) var_read (v, pts);
 	} else {
@@ -678,17 +681,21 @@ typedef struct { int kind; int ctr; int arg; int64_t res; int64_t inv, ret; } ch
 static chist_t CH[MAXCTR][64];
 static int nCH[MAXCTR];
 
+static void ctr_payload_read (void);
 static void op_ctr_add (op_t *o) {
 	int c = o->a[0], delta = o->a[1];
 	int64_t inv = ++hstep;
 	uint32_t r;
-	client_wr (&W.payload[16 + nsim_self ()]);
-	W.payload[16 + nsim_self ()]++;
+	if (delta != 0) {
+		client_wr (&W.payload[16 + nsim_self ()]);
+		W.payload[16 + nsim_self ()]++;
+	}
 	nsim_op_begin ("nsync_counter_add");
 	r = nsync_counter_add (W.ctr[c], delta);
 	nsim_op_end ();
-	if (nCH[c] < 64) { chist_t *h = &CH[c][nCH[c]++]; h->kind = 0; h->ctr = c; h->arg = delta; h->res = r; h->inv = inv; h->ret = ++hstep; }
-	if (r == 0 && CM[c].zero_step < 0) { CM[c].zero_step = hstep; CM[c].zero_ns = nsim_now_ns (); }
+	if (nCH[c] < 64) { chist_t *h = &CH[c][nCH[c]++]; h->kind = delta == 0 ? 1 : 0; h->ctr = c; h->arg = delta; h->res = r; h->inv = inv; h->ret = ++hstep; }
+	if (r == 0 && delta != 0 && CM[c].zero_step < 0) { CM[c].zero_step = hstep; CM[c].zero_ns = nsim_now_ns (); }
+	if (r == 0 && delta == 0) ctr_payload_read ();
 }
 static void ctr_payload_read (void) {
 	int t;
